@@ -327,6 +327,30 @@ def make_enforcer(rules, dflt=None, registered=(), enforce_scope=True, via='rule
     # properties: a Rules object (carrying the enforcer's default, or a
     # default rule of its own, which the enforcer must ignore), a plain dict
     # of parsed checks, or the constructor's ``rules`` argument
+    if via in ('main_file', 'dir_only') and any(name not in rules for name, _s, _t in registered):
+        via = 'rules_obj'           # (a registered default would define a name the rule set leaves undefined)
+    if via in ('main_file', 'dir_only'):
+        # the rule set is read by the enforcer itself: from its policy file, or - the policy file being
+        # absent - from a file in a policy directory
+        import atexit
+        import json as _json
+        import os
+        import shutil
+        import tempfile
+        d = tempfile.mkdtemp(prefix='verif_enf_')
+        atexit.register(shutil.rmtree, d, True)
+        main = os.path.join(d, 'policy.json')
+        pdir = os.path.join(d, 'policy.d')
+        os.makedirs(pdir)
+        with open(main if via == 'main_file' else os.path.join(pdir, 'rules.json'), 'w') as f:
+            _json.dump(rules, f)
+        e = policy.Enforcer(conf, policy_file=main, **kw)
+        conf.set_override('policy_dirs', [pdir], group='oslo_policy')
+        conf.set_override('enforce_scope', bool(enforce_scope), group='oslo_policy')
+        for name, scopes, text in registered:
+            e.register_default(policy.RuleDefault(name, text, scope_types=scopes or None))
+        e.load_rules()
+        return e
     if via == 'ctor':
         kw['rules'] = {n: _parser.parse_rule(t) for n, t in rules.items()}
     elif via == 'ctor_own_default':
